@@ -74,7 +74,7 @@ impl rustc_driver::Callbacks for Cb {
         let facts = with_no_trimmed_paths!(dump_crate(tcx, &name, is_test, std::mem::take(&mut self.fmt_templates)));
         let suffix = if is_test { ".test" } else { "" };
         let is_bin = tcx.crate_types().iter().any(|t| matches!(t, rustc_session::config::CrateType::Executable));
-        let kind = if is_bin { ".bin" } else { "" };
+        let kind = if is_bin && !is_test { ".bin" } else { "" };
         let path = format!("{}/{}{}{}.facts.json", dir, name, kind, suffix);
         let mut s = String::new();
         facts.write(&mut s);
